@@ -54,6 +54,15 @@ func (s *MkCondSimplifier) simplifyWord(expr *MkExpr, fromEmpty bool, neg bool) 
 	// Before putting any cases involving special characters into
 	// production, there need to be more tests for the edge cases.
 	replace := func(positive bool, pattern string) (bool, string, string) {
+		// The :M and :N modifiers always compare strings, but a pattern
+		// that make may parse as a number (64, 1e1, 0x10, -1, .5) would be
+		// compared numerically by == and !=, and as a bare expression
+		// ${VAR:M0} is false even if it matches.
+		numeric := matches(pattern, `^[\d+\-.]`)
+		if numeric && !fromEmpty {
+			return false, "", ""
+		}
+
 		defined := s.isDefined(varname, vartype)
 		if !defined && !positive {
 			// TODO: This is a double negation, maybe even triple.
@@ -80,7 +89,7 @@ func (s *MkCondSimplifier) simplifyWord(expr *MkExpr, fromEmpty bool, neg bool) 
 
 		needsQuotes := textproc.NewLexer(pattern).NextBytesSet(mkCondStringLiteralUnquoted) != pattern ||
 			pattern == "" ||
-			matches(pattern, `^\d+\.?\d*$`)
+			numeric
 		quote := condStr(needsQuotes, "\"", "")
 
 		to := sprintf(
